@@ -398,3 +398,21 @@ def bosonic_ext_boundary_sdp(rho, dA, dB, k, eps=1e-7):
     if prob.status != 'optimal' or beta.value is None:
         return None
     return float(beta.value)
+
+
+# ----------------------------------------------------------------------------- rays given by expectation values
+def ray_from_expectations(op_list, direction, cond_max=1e8):
+    """the traceless Hermitian X with Tr[X A_i] = n_i for all i, when the A_i are traceless Hermitian and span the whole
+    traceless space (then {rho: Tr[rho A_i] = beta n_i} is the single ray rho0 + beta X). None otherwise."""
+    ops = np.asarray(op_list, dtype=np.complex128)
+    n = np.asarray(direction, dtype=np.float64)
+    m, d = ops.shape[0], ops.shape[1]
+    if m != d * d - 1 or n.shape != (m,):
+        return None
+    if np.abs(np.einsum('iaa->i', ops)).max() > 1e-10 or np.abs(ops - ops.conj().transpose(0, 2, 1)).max() > 1e-10:
+        return None
+    gram = np.einsum('iab,jba->ij', ops, ops).real
+    if np.linalg.cond(gram) > cond_max:
+        return None
+    c = np.linalg.solve(gram, n)
+    return herm(np.einsum('i,iab->ab', c, ops))
